@@ -30,8 +30,8 @@ open Witness in
 (and the scored searcher tree) excludes. -/
 theorem minshould_lost_aux :
     (q.rewriteNone ⟨false⟩ 4).1 = qNone ∧
-    drain (stepD (fuelFor 4 2) 2) 5 (qNone.build 2) = [0, 1, 2] ∧
-    drain (stepD (fuelFor 4 2) 2) 5 (q.build 2) = [1, 2] ∧
+    drain (stepD Leaf.step (fuelFor 4 2) 2) 5 (qNone.build Leaf.mk' 2) = [0, 1, 2] ∧
+    drain (stepD Leaf.step (fuelFor 4 2) 2) 5 (q.build Leaf.mk' 2) = [1, 2] ∧
     q.den 4 = [1, 2] := by
   refine ⟨?_, by decide, by decide, ?_⟩
   · simp [q, px, py, pz, qNone, Plan.rewriteNone, optimizables, Plan.optimizable, unionAll]
@@ -43,7 +43,7 @@ open Witness in
 /-- the same rewrite with `Min()` preserved (`ScoreNone.keepMin`, the proposed repair) is exact here -/
 theorem minshould_kept_aux :
     (q.rewriteNone ⟨true⟩ 4).1 = qNoneKept ∧ (q.rewriteNone ⟨true⟩ 4).2 = 0 ∧
-    drain (stepD (fuelFor 4 2) 2) 5 (qNoneKept.build 2) = [1, 2] := by
+    drain (stepD Leaf.step (fuelFor 4 2) 2) 5 (qNoneKept.build Leaf.mk' 2) = [1, 2] := by
   refine ⟨?_, ?_, by decide⟩
   · simp [q, px, py, pz, qNoneKept, Plan.rewriteNone, optimizables, Plan.optimizable, unionAll]
     decide
@@ -69,7 +69,7 @@ no document can satisfy one of zero should queries — is ignored: the searcher 
 theorem minshould_without_should_aux :
     denote idx1 q2 = [] ∧
     compile idx1 q2 = .bool (some (.conj [.leaf .postings [0]])) none none 0 ∧
-    drain (stepD (fuelFor 1 1) 2) 2 ((Plan.bool (some (.conj [.leaf .postings [0]])) none none 0).build 2) = [0] := by
+    drain (stepD Leaf.step (fuelFor 1 1) 2) 2 ((Plan.bool (some (.conj [.leaf .postings [0]])) none none 0).build Leaf.mk' 2) = [0] := by
   refine ⟨?_, ?_, by decide⟩
   · simp [denote, idx1, q2, sat_bool, need]
   · simp [q2, compile_bool, compile_term, post, idx1, doc0, Doc.hasTerm, Doc.fieldTerms]
